@@ -123,6 +123,18 @@ where
             cc.extend_commitment_with_pk(&msgs_of(&a[1]), &pk, &Bases(bases), ri.as_deref());
             to(cc.cl03Commitment())
         }
+        "cl.extendcpk" => {
+            let c: CL03Commitment = from(&a[0]);
+            let cpk: CL03CommitmentPublicKey = from(&a[2]);
+            let ri: Option<Vec<usize>> = from(&a[3]);
+            let mut cc = Commitment::<CL03<CS>>::CL03(c);
+            cc.extend_commitment_with_commitment_pk(&msgs_of(&a[1]), &cpk, ri.as_deref());
+            to(cc.cl03Commitment())
+        }
+        "cl.maphash" => {
+            let b = unhex(a[0].as_str().unwrap());
+            to(&CL03Message::map_message_to_integer_as_hash::<CS>(&b).get_value())
+        }
         "cl.zkgen" => {
             let c: CL03Commitment = from(&a[1]);
             let ct: Option<CL03Commitment> = from(&a[2]);
